@@ -91,8 +91,9 @@ META = {
 
 MANIFEST = {
     "category": "proof",
-    "text": "The real save_parameters is executed against a ghost file-system image under assumed POSIX contracts; a crash is "
-            "injected at every point before/after every file-system call and after every partial write. From "
+    "text": "The real save_parameters is executed against a ghost file-system image under assumed POSIX contracts; the process "
+            "dies - by a kill, or by an exception raised there so that finally-clauses and context managers still run - at every point "
+            "before/after every file-system call and after every partial write. From "
             "name=complete(v0) (all 9 sibling configurations, the flags the call sites pass, also through the real "
             "MCMC/Optimizer.save_full_state) every crash state keeps a complete unmixed checkpoint and never leaves name "
             "truncated, and the exit state is name=complete(new). For fault sequences the set of abstract states reachable by "
